@@ -10,6 +10,7 @@ WHICH spec at WHICH place of the line.
 """
 import z3
 
+from pyvc import ext_C01
 from pyvc import models as M
 from pyvc.engine import ProgExc, Unsupported
 from pyvc.models import FmtPiece, SymStr
@@ -468,3 +469,414 @@ def lemmas():
         ("written-then-rebased-parent-is-the-original-parent-and-roots-stay-roots", wf, pid_back == p),
         ("a-written-non-root-parent-is-never-the-root-marker", wf + [p >= 0], pid_written != -1),
     ]
+
+
+# ---------------------------------------------------------------------------
+# The round-trip LEMMA proper: the composition  to_swc -> parse_swc -> reset_index_ -> Tree.from_data_frame  stated over the four
+# CONTRACTS (their clause functions are fetched from the registry and evaluated, nothing is re-typed here), for an arbitrary
+# well-formed tree of symbolic size and an arbitrary offset >= 0.  It is run as a small ghost program on a real engine: `assume`
+# collects hypotheses, `prove` emits the lemma obligations.  A change of any of the four contracts that breaks the composition
+# (another format spec, another shift, another re-basing, another column wiring) makes a lemma obligation fail or the lemma
+# impossible to state (machinery error).  What links the writer's TEXT to the reader's TOKENS is assumed and listed:
+STR_OF_INT = z3.Function("text_of_str(int)", z3.IntSort(), z3.IntSort())
+FMT4 = z3.Function("text_of_format(real,'.4f')", z3.RealSort(), z3.IntSort())
+ROUND4 = z3.Function("round4", z3.RealSort(), z3.RealSort())
+WROW = z3.Function("written_row_line", z3.IntSort(), z3.IntSort())
+
+LEMMA_ASSUMPTIONS = [
+    "round-trip lemma, assumed (CPython number formatting): float_of_text(fmt4(v)) = round4(v) and the conversion succeeds, for every real v "
+    "(round4 uninterpreted: 'v rounded to the four decimals the format carries'); int_of_text(str(k)) = k and succeeds, for every integer k",
+    "round-trip lemma, assumed (whitespace token lemma, DESIGN 3/C01): group c of the row pattern on a written row line is the text of its c-th cell",
+    "round-trip lemma, assumed (row structure of the written text): the row lines of the text to_swc yields are exactly its n node lines, in node "
+    "order - the '#' lines (comments, column header) are no rows (regex-language fact plus a counting induction; exercised by the bounded stand-in)",
+]
+
+
+def _text_of_atom(a):
+    """the text (abstract id) of one cell atom: only str(int) and format(real, '.4f') have assumed read-back facts"""
+    tag_, spec, val = a
+    if tag_ != "fmt":
+        raise KeyError(f"cell atom {a!r}")
+    k = kind_of(val)
+    if spec == "str" and k == "int":
+        return STR_OF_INT(to_z3(val, "int"))
+    if spec == ".4f" and k == "real":
+        return FMT4(to_z3(val, "real"))
+    return z3.Function(f"text_of_format({k},{spec!r})", z3.IntSort() if k == "int" else z3.RealSort(), z3.IntSort())(to_z3(val, k))
+
+
+def _clause(contract, label, where="ensures"):
+    from pyvc.spec import split_label
+
+    for j, cl in enumerate(getattr(contract, where)):
+        lab, body = split_label(cl, f"{where}{j}")
+        if lab == label:
+            return body
+    raise KeyError(f"{contract.key}: no {where} clause labelled {label!r} (the round-trip lemma is stated over it)")
+
+
+def roundtrip_lemma(tamper=None):
+    """`tamper(c_write, c_parse, c_reset, c_build)` may edit the four contracts first: used only by tools/lemma_selftest_C01.py to show
+    that a broken contract breaks the lemma (the check itself calls it without)"""
+    import importlib
+
+    from pyvc.npmodels import DFrame
+    from pyvc.spec import eval_clause
+    from pyvc.values import Obj, PDict
+    from pyvc.verify import Verifier
+    from swcgeom.core.swc_utils import get_names, get_types
+    from swcgeom.core.tree import Tree
+
+    saved = dict(M.EXTRA_MODELS)  # contracts/C02.py installs process-wide models when imported: keep them out of this process
+    try:
+        C02, C18 = importlib.import_module("contracts.C02"), importlib.import_module("contracts.C18")
+        R = Registry()
+        C18.register(R)
+        C02.register(R)
+        register(R)
+    finally:
+        M.EXTRA_MODELS.clear()
+        M.EXTRA_MODELS.update(saved)
+    pick = lambda key, prop: next(c for c in R.alts[key] if c.prop == prop)
+    c_write, c_parse = pick(f"{IO}:to_swc", "C01"), pick(f"{IO}:parse_swc", "C02")
+    c_reset, c_build = pick("swcgeom/core/swc_utils/normalizer.py:reset_index_", "C18"), pick(f"{TREE}:Tree.from_data_frame", "C01")
+    if tamper is not None:
+        tamper(c_write, c_parse, c_reset, c_build)
+    names = get_names()
+    NC = names.cols()
+    E = Verifier(R, "C01")
+    E.variant = ""
+    ev = lambda body, vars_, old=None, globs=None: eval_clause(E, body, vars_, globs or {}, old_vars=old, extra={})
+
+    # ---- an arbitrary well-formed tree, an arbitrary offset
+    n, off = z3.Int("n_nodes"), Sym(z3.Int("id_offset"), "int")
+    t = {c: SArr(z3.Const(f"tree_{c}", z3.ArraySort(z3.IntSort(), z3.IntSort() if c in INT_COLS else z3.RealSort())), n, "int" if c in INT_COLS else "real", name=c)
+         for c in NC}
+    i = z3.Int("i")
+    E.assume(n >= 1)
+    E.assume(z3.ForAll([i], z3.Implies(z3.And(i >= 0, i < n), t["id"].get(i).z == i)))           # WFtree: ids are positions,
+    E.assume(t["pid"].get(0).z == -1)                                                              # node 0 is the root,
+    E.assume(z3.ForAll([i], z3.Implies(z3.And(i > 0, i < n), z3.And(t["pid"].get(i).z >= 0, t["pid"].get(i).z < n))))  # every other node has a parent
+    E.assume(off.z >= 0)
+    wv = dict(get_ndata=Callback("get_ndata", None), g_cols=t, g_n=Sym(n, "int"), given_extra=None, given_comments=None, id_offset=off,
+              extra_cols=None, comments=None, names=None)
+    for j, cl in enumerate(c_write.requires):  # the writer's preconditions hold for such a tree
+        from pyvc.spec import split_label
+
+        lab, body = split_label(cl, f"pre{j}")
+        E.prove(f"lemma/roundtrip/writer-precondition/{lab}", ev(body, wv), "lemma")
+
+    # ---- 1. to_swc's contract: line k is the cells of node k in column order (per-iteration `yields` clause, arbitrary k)
+    (ylab, row_yield), = c_write.loops[1]["yields"]
+    k = z3.Int("k")
+    cellv = {c: z3.Function(f"written_{c}", z3.IntSort(), z3.IntSort() if c in INT_COLS else z3.RealSort()) for c in NC}
+
+    def written_line(kk):
+        # the PROPERTY's picture of a row: str() of the three integer columns, four decimals for the floating ones, blank-separated
+        parts = []
+        for j, c in enumerate(NC):
+            if j:
+                parts.append(" ")
+            parts.append(FmtPiece(Sym(cellv[c](kk), "int" if c in INT_COLS else "real"), "str" if c in INT_COLS else ".4f"))
+        return SStr(tuple(parts) + ("\n",))
+
+    wr = row_yield(E, wv, [written_line(k)], Sym(k, "int"))
+    if wr is False:
+        raise KeyError("to_swc's row clause no longer describes a row of str()/'.4f' cells: the round-trip lemma cannot be stated")
+    E.assume(z3.ForAll([k], z3.Implies(z3.And(k >= 0, k < n), to_z3(wr, "bool"))))
+    cells = [a for a in atoms(written_line(k)) if not isinstance(a, str)]
+    assert len(cells) == 7
+
+    # ---- 2. assumed bridge text -> tokens (LEMMA_ASSUMPTIONS), over C02's spec functions
+    f = z3.Int("written_file")
+    row_tag = C02.tag("search", C02.ref_row_pattern(0))
+    v_, r_ = z3.Int("v"), z3.Real("r")
+    E.assume(z3.ForAll([v_], z3.And(C02.INT_OK(STR_OF_INT(v_)), C02.INT_OF(STR_OF_INT(v_)) == v_)))
+    E.assume(z3.ForAll([r_], z3.And(C02.FLT_OK(FMT4(r_)), C02.FLT_OF(FMT4(r_)) == ROUND4(r_))))
+    E.assume(z3.ForAll([k], z3.Implies(z3.And(k >= 0, k < n), z3.And(*[C02.GRP(row_tag, WROW(k), c + 1) == _text_of_atom(a) for c, a in enumerate(cells)]))))
+    E.assume(C02.RCNT(f, C02.NL(f)) == n)
+    E.assume(z3.ForAll([k], z3.Implies(z3.And(k >= 0, k < n), C02.LINE(f, C02.RLINE(f, k)) == WROW(k))))
+    E.prove("lemma/roundtrip/every-written-row-converts(no-ValueError-from-the-reader)",
+            z3.ForAll([k], z3.Implies(z3.And(k >= 0, k < n), C02.conv_ok(0, C02.LINE(f, C02.RLINE(f, k))))), "lemma")
+
+    # ---- 3. parse_swc's contract on that file
+    kinds = {c: ("int" if c in INT_COLS else "real") for c in NC}
+    d0 = DFrame({c: SArr.fresh(kinds[c], z3.Int("parsed_rows"), name=f"parsed_{c}") for c in NC}, z3.Int("parsed_rows"))
+    E.assume(d0.n >= 0)
+    pv = dict(fname=Opaque(f, {}), names=names, extra_cols=None, encoding="utf-8", result=(d0, PList.fresh("ref", name="comments")))
+    for lab in ("one-table-entry-per-row-line", "every-field-is-the-conversion-of-its-group-in-file-order"):
+        E.assume(ev(_clause(c_parse, lab), pv, dict(pv)))
+
+    # ---- 4. reset_index_'s contract (C18) on the parsed table: precondition proved, postconditions assumed
+    for j, cl in enumerate(c_reset.requires):
+        from pyvc.spec import split_label
+
+        lab, body = split_label(cl, f"pre{j}")
+        E.prove(f"lemma/roundtrip/reset_index_-precondition-on-the-parsed-table/{lab}", ev(body, dict(df=d0, names=None)), "lemma")
+    d1 = DFrame({c: SArr.fresh(kinds[c], d0.n, name=f"rebased_{c}") for c in NC}, d0.n)
+    for j, cl in enumerate(c_reset.ensures):
+        from pyvc.spec import split_label
+
+        lab, body = split_label(cl, f"post{j}")
+        E.assume(ev(body, dict(df=d1, names=None, result=None), dict(df=d0, names=None)))
+
+    # ---- 5. Tree.from_data_frame's contract on the re-based table
+    m = z3.Int("read_back_nodes")
+    back = {c: SArr.fresh(kinds[c], m, name=f"read_back_{c}") for c in NC}
+    tree2 = Obj(Tree, dict(ndata=PDict(dict(back)), names=names, types=get_types(), source="", comments=PList([])))
+    bv = dict(df=d1, source="", comments=None, names=None, result=tree2, g_extra=[])
+    E.assume(ev(_clause(c_build, "n-nodes-is-the-number-of-rows-and-every-SWC-column-holds-the-frame's-values-in-row-order"), bv, dict(bv)))
+
+    # ---- the round trip (PROPERTY C01): same number of nodes, ids 0..n-1, same parents, same types, floats rounded to four decimals
+    hyps_for_cover = list(E.pc)
+    E.prove("lemma/roundtrip/same-number-of-nodes", m == n, "lemma")
+    node = z3.Int("node")
+    E.assume(z3.And(node >= 0, node < n))
+    E.prove("lemma/roundtrip/id-is-the-node-index(arange)", back["id"].get(node).z == node, "lemma")
+    E.prove("lemma/roundtrip/parent-is-the-original-parent(root-stays-minus-one)", back["pid"].get(node).z == t["pid"].get(node).z, "lemma")
+    E.prove("lemma/roundtrip/type-is-the-original-type", back["type"].get(node).z == t["type"].get(node).z, "lemma")
+    for c in FLT_COLS:
+        E.prove(f"lemma/roundtrip/{c}-is-the-original-formatted-with-.4f-and-parsed-back(round4)", back[c].get(node).z == ROUND4(t[c].get(node).z), "lemma")
+    out = [(o.name.split("/lemma/", 1)[1], o.hyps, o.goal) for o in E.obligs]
+    out.append(("cover:roundtrip/hypotheses-are-satisfiable", hyps_for_cover, z3.BoolVal(False)))
+    return out
+
+
+_lemmas_arith = lemmas
+
+
+def lemmas():  # noqa: F811
+    return _lemmas_arith() + roundtrip_lemma()
+
+
+# ===========================================================================
+# column -> array construction: Tree.__init__, DictSWC.__init__, Tree.from_data_frame
+TREE = "swcgeom/core/tree.py"
+PAD = dict(id=0, type=0, x=0, y=0, z=0, r=1, pid=0)  # filling value of a column that is GIVEN but shorter than n (radius: 1); an absent column is all zeros
+
+
+def _np32(col):
+    import numpy as np
+
+    return np.dtype("int32") if col in INT_COLS else np.dtype("float32")
+
+
+def _np64(col):
+    import numpy as np
+
+    return np.dtype("int64") if col in INT_COLS else np.dtype("float64")
+
+
+def _kind(col):
+    return "int" if col in INT_COLS else "real"
+
+
+def register_build(R):
+    import numpy as np
+    from pyvc.values import Obj, PDict
+    from swcgeom.core.swc import DictSWC
+    from swcgeom.core.swc_utils import get_names, get_types
+    from swcgeom.core.tree import Tree
+
+    names = get_names()
+    NCOLS = names.cols()
+
+    def column_is(arr, n, given, pad, col):
+        """arr has exactly n entries; entry i is given[i] where the given column has one, else the padding value"""
+        i = z3.Int(fresh_name("i"))
+        k = _kind(col)
+        want = to_z3(0, k) if given is None else z3.If(i < given.nz(), to_z3(given.get(i), k), to_z3(pad, k))
+        return z3.And(arr.nz() == to_z3(n, "int"), z3.ForAll([i], z3.Implies(z3.And(i >= 0, i < arr.nz()), to_z3(arr.get(i), k) == want)))
+
+    def stored(E, v, o):
+        d = v["self"]
+        cm = d.fields.get("comments")
+        want_cm = [] if o["comments"] is None else list(o["comments"].items)
+        return (isinstance(cm, PList) and cm.items is not None and len(cm.items) == len(want_cm) and all(a is b for a, b in zip(cm.items, want_cm))
+                and (o["comments"] is None or cm is not v["comments"])  # a list of its own: later edits of the tree's comments do not reach the caller's list
+                and d.fields.get("source") == o["source"] and d.fields.get("names") == names and d.fields.get("types") == get_types())
+
+    # ---------------------------------------------------------------- Tree.__init__
+    def init_setup(widths, free=(), extra=("e",), drop=(), comments=True):
+        def f(S):
+            ext_C01.install()
+            n = S.int("n_nodes")
+            S.assume(n.z >= 0)
+            cols = {}
+            for c in NCOLS + list(extra):
+                if c in drop:
+                    continue
+                m = S.int(f"len_{c}") if c in free else n  # a free length: shorter than n (padded), equal, or longer (cut)
+                a = S.arr(_kind(c), n=m, name=c, dtype=(_np64(c) if widths == 64 else _np32(c)))
+                a.frozen = True
+                cols[c] = a
+            c0, c1 = S.opaque({}, "comment0"), S.opaque({}, "comment1")
+            cm = PList([c0, c1]) if comments else None
+            if cm is not None:
+                cm.frozen = True
+            return dict(self=S.obj(Tree), n_nodes=n, source="a.swc", comments=cm, names=None, kwargs=PDict(dict(cols)), g_cols=dict(cols), g_extra=list(extra))
+
+        return f
+
+    def init_cols(E, v, o):
+        nd = v["self"].fields.get("ndata")
+        if not isinstance(nd, PDict) or nd.items is None or list(nd.items) != NCOLS + v["g_extra"]:
+            return False  # the seven SWC columns in format order, then the extra columns in the order given
+        out = []
+        for c in NCOLS:
+            a, g = nd.items[c], v["g_cols"].get(c)
+            if not isinstance(a, SArr):
+                return False
+            if g is None and c == "id":
+                g = SArr(z3.Lambda([z3.Int("k")], z3.Int("k")), o["n_nodes"].z, "int")      # default numbering 0..n-1
+            if g is None and c == "pid":
+                g = SArr(z3.Lambda([z3.Int("k")], z3.Int("k") - 1), o["n_nodes"].z, "int")  # default parent: the preceding node (a chain), root -1
+            out.append(column_is(a, o["n_nodes"], g, PAD[c], c))
+        return z3.And(*out)
+
+    def init_dtypes(E, v, o):
+        nd = v["self"].fields["ndata"].items
+        return all(isinstance(nd[c], SArr) and nd[c].dtype == _np32(c) for c in NCOLS)
+
+    def init_extra(E, v, o):
+        nd = v["self"].fields["ndata"].items
+        return all(nd.get(c) is v["g_cols"][c] for c in v["g_extra"])
+
+    R.add(
+        f"{TREE}:Tree.__init__",
+        prop="C01",
+        variants={
+            "all-columns,64-bit(as-a-parsed-frame-hands-them-over),length-n": init_setup(64),
+            "all-columns,32-bit,id-and-x-of-any-length(short:padded,long:cut)": init_setup(32, free=("id", "x")),
+            "all-columns,64-bit,type-r-pid-of-any-length,no-comments": init_setup(64, free=("type", "r", "pid"), comments=False),
+            "no-id-no-pid:default-numbering-and-chain-parents": init_setup(32, extra=(), drop=("id", "pid")),
+            "only-id-and-pid:attributes-zero": init_setup(64, extra=(), drop=("type", "x", "y", "z", "r")),
+        },
+        requires=["size-non-negative :: n_nodes >= 0"],
+        ensures=[
+            ("every-SWC-column-has-n-entries:the-given-values-in-order-then-the-padding-value", init_cols),
+            ("int-columns-stored-as-int32-float-columns-as-float32", init_dtypes),
+            ("extra-columns-kept-as-given-after-the-seven-SWC-columns", init_extra),
+            ("source-names-types-stored-comments-copied-into-an-own-list", stored),
+        ],
+        notes="n_nodes, every column's length and content symbolic; given arrays are frozen (a write = failed frame obligation)",
+    )
+
+    # ---------------------------------------------------------------- DictSWC.__init__
+    def dict_setup(comments, names_given):
+        def f(S):
+            n = S.int("n")
+            S.assume(n.z >= 0)
+            cols = {}
+            for c in NCOLS + ["e"]:
+                a = S.arr(_kind(c), n=n, name=c, dtype=_np32(c))
+                a.frozen = True
+                cols[c] = a
+            c0, c1 = S.opaque({}, "comment0"), S.opaque({}, "comment1")
+            cm = PList([c0, c1]) if comments else None
+            if cm is not None:
+                cm.frozen = True
+            return dict(self=S.obj(DictSWC), source="a.swc", comments=cm, names=(names if names_given else None), kwargs=PDict(dict(cols)), g_cols=dict(cols))
+
+        return f
+
+    def dict_cols(E, v, o):
+        nd = v["self"].fields.get("ndata")
+        return (isinstance(nd, PDict) and nd.items is not None and list(nd.items) == list(v["g_cols"])
+                and all(nd.items[c] is v["g_cols"][c] for c in nd.items))
+
+    R.add(
+        f"{SWC}:DictSWC.__init__",
+        prop="C01",
+        variants={f"comments-{'given' if c else 'omitted'},names-{'given' if nm else 'omitted'}": dict_setup(c, nm) for c in (True, False) for nm in (True, False)},
+        ensures=[
+            ("one-column-per-keyword-in-the-given-order-holding-the-very-array-given", dict_cols),
+            ("source-names-types-stored-comments-copied-into-an-own-list", stored),
+        ],
+        notes="the columns are the arrays handed over (no copy, no conversion): values, order and dtype are the caller's",
+    )
+
+    # ---------------------------------------------------------------- Tree.from_data_frame
+    def frame_setup(extra, comments=True):
+        def f(S):
+            ext_C01.install()
+            cols = {c: _kind(c) for c in NCOLS + list(extra)}
+            df = S.dframe(cols, name="frame")
+            for c, a in df.cols.items():
+                a.dtype = _np64(c)  # what pandas makes of the parsed Python ints / floats
+                a.frozen = True
+            df.frozen = True
+            c0, c1 = S.opaque({}, "comment0"), S.opaque({}, "comment1")
+            cm = PList([c0, c1]) if comments else None
+            if cm is not None:
+                cm.frozen = True
+            return dict(df=df, source="a.swc", comments=cm, names=None, g_extra=list(extra))
+
+        return f
+
+    def frame_is_tree(E, v, o):
+        t = v["result"]
+        return isinstance(t, Obj) and t.cls is Tree
+
+    def frame_cols(E, v, o):
+        t, df = v["result"], o["df"]
+        nd = t.fields.get("ndata")
+        if not isinstance(nd, PDict) or nd.items is None or list(nd.items)[:7] != NCOLS:
+            return False
+        out = []
+        for c in NCOLS:
+            a = nd.items[c]
+            if not isinstance(a, SArr):
+                return False
+            out.append(column_is(a, zint(df.n), df.cols[c], PAD[c], c))  # the frame's column has n entries: no padding, no cut
+        return z3.And(*out)
+
+    def frame_dtypes(E, v, o):
+        nd = v["result"].fields["ndata"].items
+        return all(isinstance(nd[c], SArr) and nd[c].dtype == _np32(c) for c in NCOLS)
+
+    def frame_fresh(E, v, o):
+        nd = v["result"].fields["ndata"]
+        return nd.uid not in E.entry_uids and all(nd.items[c].uid not in E.entry_uids for c in NCOLS)
+
+    def frame_extra(E, v, o):
+        # FINDING: Tree.from_data_frame hands only names.cols() to Tree(...): a frame read with extra_cols=[...] (Tree.from_swc(f,
+        # extra_cols=..), Tree.from_eswc) loses the requested columns without any message; to_eswc() of such a tree raises KeyError
+        t, df = v["result"], o["df"]
+        nd = t.fields["ndata"].items
+        out = []
+        for c in v["g_extra"]:
+            if c not in nd or not isinstance(nd[c], SArr):
+                return False
+            out.append(column_is(nd[c], zint(df.n), df.cols[c], 0, c))
+        return list(nd) == NCOLS + v["g_extra"] and (z3.And(*out) if out else True)
+
+    def frame_stored(E, v, o):
+        return stored(E, dict(self=v["result"], comments=v["comments"]), o)
+
+    R.add(
+        f"{TREE}:Tree.from_data_frame",
+        prop="C01",
+        variants={
+            "seven-columns,comments": frame_setup(()),
+            "seven-columns,no-comments": frame_setup((), comments=False),
+            "seven-columns+one-requested-extra-column": frame_setup(("e",)),
+        },
+        ensures=[
+            ("a-Tree-is-returned", frame_is_tree),
+            ("n-nodes-is-the-number-of-rows-and-every-SWC-column-holds-the-frame's-values-in-row-order", frame_cols),
+            ("int-columns-stored-as-int32-float-columns-as-float32", frame_dtypes),
+            ("the-tree-owns-fresh-arrays(64-bit-frame-columns-are-converted-copies)", frame_fresh),
+            ("extra-columns-of-the-frame-are-kept", frame_extra),  # FINDING (fails for the variant with an extra column)
+            ("source-names-types-stored-comments-copied-into-an-own-list", frame_stored),
+        ],
+        notes="number of rows and all cell values symbolic; frame and its columns frozen (a write = failed frame obligation)",
+    )
+
+
+_register_w = register
+
+
+def register(R):  # noqa: F811
+    _register_w(R)
+    register_build(R)
